@@ -145,6 +145,15 @@ func runPlan(t *testing.T, sc *Scenario, plan *Plan, ch *simrt.Choices) (res Res
 		for _, e := range w.Execs {
 			fmt.Fprintf(os.Stderr, "EXEC %+v\n", *e)
 		}
+		if os.Getenv("VERIF_DEBUG") == "4" {
+			for _, p := range w.Net.Pipes {
+				for dir := 0; dir < 2; dir++ {
+					for _, f := range DecodeStream(p.Dir(dir).Log, w.P.Header, dir == 0) {
+						fmt.Fprintf(os.Stderr, "WIRE pipe %d dir %d off %d..%d seq %d stream %d hb %v noreq %v noresp %v method %q err %q body %d bytes bad %q\n", p.ID, dir, f.Off, f.End, f.Seq, f.Stream, f.Heartbeat, f.NoRequest, f.NoResponse, f.Method, f.Error, len(f.Body), f.Bad)
+					}
+				}
+			}
+		}
 		for _, p := range w.Net.Pipes {
 			fmt.Fprintf(os.Stderr, "PIPE %d addr=%s cut=%q c2s=%d bytes s2c=%d bytes closed=%v/%v\n", p.ID, p.Addr, p.CutBy, len(p.Dir(0).Log), len(p.Dir(1).Log), p.Ends[0].closed, p.Ends[1].closed)
 		}
